@@ -639,6 +639,9 @@ pub struct C20Scenario {
     /// still be printing the tail of the first)
     #[serde(default)]
     pub second: Option<RunScript>,
+    /// the listener is closed mid-run and this one (narrower filters) is opened on the same port
+    #[serde(default)]
+    pub replaced_by: Option<ListenerCfg>,
 }
 
 pub struct C20;
@@ -649,6 +652,19 @@ pub struct C20;
 /// target of exactly that name; and in one scenario in three one line in six ends in blanks (spaces, tabs, a
 /// no-break or an ideographic space) before its newline: a listener must not tidy lines up.
 fn c20_names_and_blanks(sc: &mut C20Scenario, seed: u64, idx: usize) {
+    {
+        // one plain scenario in twelve: the first listener hears everything and is closed after a third of the
+        // writes; its replacement admits one stream of one target
+        let mut rrng = Rng::new(scenario_seed(seed, "C20-replaced", idx));
+        if sc.second.is_none() && sc.script.lfaults.is_empty() && sc.spec.targets.len() <= 24 && rrng.chance(1, 12) {
+            let total: usize = sc.script.behav.iter().map(|b| b.outs.len()).sum();
+            sc.listener = ListenerCfg { stdout: true, stderr: true, targets: vec![], commands: vec![] };
+            let t = sc.script.behav[rrng.below(sc.script.behav.len())].target.clone();
+            let so = rrng.chance(1, 2);
+            sc.replaced_by = Some(ListenerCfg { stdout: so, stderr: !so, targets: vec![t], commands: vec![] });
+            sc.script.lfaults.push(LFault { at: LTrigger::AfterOut { n: (total / 3).max(1) }, action: LAction::Restart });
+        }
+    }
     let mut rng = Rng::new(scenario_seed(seed, "C20-names", idx));
     let pool = ["rust", "rust/core", "rustfmt", "rustfmt/cli", "rusty", "app", "apps/web", "app/web", "app-web", "lib", "lib/x/y", "libs"];
     let mut map: BTreeMap<String, String> = BTreeMap::new();
@@ -672,6 +688,9 @@ fn c20_names_and_blanks(sc: &mut C20Scenario, seed: u64, idx: usize) {
     }
     sc.script.opts.targets.iter_mut().for_each(ren);
     sc.listener.targets.iter_mut().for_each(ren);
+    if let Some(r) = sc.replaced_by.as_mut() {
+        r.targets.iter_mut().for_each(ren);
+    }
     if !map.is_empty() && rng.chance(1, 2) {
         // the short names that are string prefixes of other targets
         sc.listener.targets = ["rust", "app", "lib"].iter().map(|s| s.to_string()).filter(|s| sc.spec.targets.iter().any(|t| t.path == *s)).collect();
@@ -852,10 +871,72 @@ fn gen_c20(seed: u64, idx: usize, tier: Tier) -> C20Scenario {
         s2.rand_seed = script.rand_seed;
         second = Some(s2);
     }
-    C20Scenario { spec, script, listener: ListenerCfg { stdout: so, stderr: se, targets: lt, commands: lc }, second }
+    C20Scenario { spec, script, listener: ListenerCfg { stdout: so, stderr: se, targets: lt, commands: lc }, second, replaced_by: None }
+}
+
+/// The tail window is closed in the middle of the run and a new one, with narrower filters, is opened on the same port.
+/// Whether the run finds the new listener is its business; what the new listener prints must be within ITS filters.
+fn exec_c20_replaced(sc: &C20Scenario, second: &ListenerCfg) -> Outcome {
+    let mut w = match World::create(&sc.spec, true) {
+        Ok(w) => w,
+        Err(e) => return Outcome::skip(&format!("world: {}", e)),
+    };
+    if let Some(s) = sc.script.rand_seed {
+        w.set_rand_seed(s);
+    }
+    let l = match start_listener(&mut w, &sc.listener) {
+        Ok(l) => l,
+        Err(e) => return Outcome::skip(&format!("listener: {}", e)),
+    };
+    let mut script = sc.script.clone();
+    script.listener_args = second.args();
+    let tr = drive_run_l(&mut w, "M1", &script, Duration::from_millis(default_hang_ms()), Some(l));
+    let mut out = Outcome::default();
+    out.trace = tr.log.iter().filter(|l| !l.starts_with("out ")).cloned().collect();
+    out.steps = tr.steps as u64;
+    if tr.hang.is_some() || tr.code() != Some(0) {
+        out.advisories.push(format!("run failed: {:?} {:?} {}", tr.hang, tr.code(), tr.stderr_str()));
+        out.skipped = Some("run_did_not_succeed(other property)".into());
+        return out;
+    }
+    let nl = match tr.listener_restarted_as {
+        Some(x) => x,
+        None => {
+            out.skipped = Some("listener_was_not_replaced(harness)".into());
+            return out;
+        }
+    };
+    out.fault("listener_replaced_by_one_with_narrower_filters", 1);
+    let cap = match finish_listener(&mut w, nl) {
+        Some(x) => x.stdout,
+        None => {
+            out.skipped = Some("listener_output_unavailable(harness)".into());
+            return out;
+        }
+    };
+    let (_, blocks) = crate::logparse::parse_blocks_strict(&cap);
+    let mut printed = 0;
+    for (bi, b) in blocks.iter().enumerate() {
+        let stream_header = bi == 0 || !b.colored || b.file.contains(',') || b.target.starts_with("(any ") || b.command.starts_with("(any ");
+        if stream_header {
+            continue;
+        }
+        printed += 1;
+        if !second.admits(&b.file, &b.target, &b.command) {
+            out.violate("filter", "unadmitted_block_after_listener_replaced", format!("the second listener {:?} (started after the first, {:?}, was closed mid-run) printed a block for {:?}", second, sc.listener, (&b.file, &b.target, &b.command)));
+            break;
+        }
+    }
+    out.probe("blocks_printed_by_the_replacing_listener", printed);
+    out.nontrivial = true;
+    out.signature = format!("replaced|{:?}|{:?}|{}", sc.listener, second, sc.spec.targets.len());
+    out
 }
 
 fn exec_c20(sc: &C20Scenario) -> Outcome {
+    if let Some(second) = &sc.replaced_by {
+        return exec_c20_replaced(sc, second);
+    }
     let mut w = match World::create(&sc.spec, true) {
         Ok(w) => w,
         Err(e) => return Outcome::skip(&format!("world: {}", e)),
